@@ -833,7 +833,17 @@ func Run(r *mc.Run) {
 	}
 	r.SetExtra("depth_per_system", depths)
 	if Part2 != nil {
-		r.SetBudget(time.Since(r.Start) + total/4)
+		p2 := total / 4
+		if r.Quick() {
+			p2 += 50 * time.Second // the borrowed-signature scenarios of forge.go
+		} else {
+			p2 += 90 * time.Second
+		}
+		end := time.Since(r.Start) + p2
+		if whole := 29 * time.Minute; !r.Quick() && end < whole {
+			end = whole // part 1 did not use its share (state caps reached early): part 2 may use the rest of the tier's half hour
+		}
+		r.SetBudget(end)
 		Part2(r)
 	}
 }
